@@ -151,6 +151,9 @@ func (g *Guards) cubeSat(t *Term, c *Cube) bool {
 		}
 	}
 	g.e.stats.LocalQ++
+	if debugGuards && g.e.stats.LocalQ < 40 {
+		println("LOCALQ", g.e.ts.Show(t, 6), "stack", g.e.callStk[len(g.e.callStk)-1])
+	}
 	g.e.sol.SetTimeout(g.e.cfg.FeasTimeoutMs)
 	r, _ := g.e.sol.Check(q, false)
 	g.e.sol.SetTimeout(g.e.cfg.FinalTimeoutMs)
@@ -229,6 +232,13 @@ func (g *Guards) filter(cs []*Cube, cond *Term) []*Cube {
 		println("filter multi-var cond over", len(cs), "cubes; sup bits", bits.OnesCount64(cond.Sup), "op", cond.Op, g.dump(cs))
 	}
 	for _, c := range cs {
+		switch g.conjunct(c.t, cond, 0) {
+		case 1:
+			out = append(out, c) // cond is already a conjunct of the residual term
+			continue
+		case -1:
+			continue
+		}
 		switch g.quick(cond, c) {
 		case 1:
 			g.e.stats.Quick++
@@ -599,4 +609,21 @@ func itoa(i int) string {
 		return "-" + string(b)
 	}
 	return string(b)
+}
+
+// conjunct scans the conjunction tree of t for cond (+1) or its negation (-1).
+func (g *Guards) conjunct(t, cond *Term, depth int) int {
+	if t == cond {
+		return 1
+	}
+	if (t.Op == OpBNot && t.Args[0] == cond) || (cond.Op == OpBNot && cond.Args[0] == t) {
+		return -1
+	}
+	if t.Op == OpBAnd && depth < 64 {
+		if r := g.conjunct(t.Args[1], cond, depth+1); r != 0 {
+			return r
+		}
+		return g.conjunct(t.Args[0], cond, depth+1)
+	}
+	return 0
 }
